@@ -223,3 +223,83 @@ fn dt_twin_must_fail() {
     assert!(t.stack.len() == 2, "vacuity witness");
     std::mem::forget(t);
 }
+
+/// Path-mode harness (CBMC --paths lifo): the LENGTH of the trail is symbolic too (1..=4 decisions), which the
+/// merged-state encoding cannot do (a symbolic number of pushes makes Vec lengths symbolic, DESIGN P11).
+#[kani::proof]
+#[kani::unwind(8)]
+fn dt_paths_symbolic_length() {
+    const IDS: [usize; 4] = [0, 3, 1, 4];
+    let n: usize = kani::any();
+    kani::assume(n >= 1 && n <= 4);
+    let mut t = DecisionTracker::default();
+    let mut vars = [VariableId::root(); 4];
+    let mut values = [false; 4];
+    let mut levels = [0u32; 4];
+    let mut prev = 1u32;
+    let mut i = 0;
+    while i < 4 {
+        if i < n {
+            let var = VariableId::from_usize(IDS[i]);
+            let value: bool = kani::any();
+            let lvl: u32 = kani::any();
+            kani::assume(lvl >= prev && lvl <= 1000);
+            prev = lvl;
+            let r = t.try_add_decision(Decision::new(var, value, ClauseId::install_root()), lvl);
+            assert!(r == Ok(true));
+            vars[i] = var;
+            values[i] = value;
+            levels[i] = lvl;
+        }
+        i += 1;
+    }
+    let p: usize = kani::any();
+    kani::assume(p <= n);
+    let mut i = 0;
+    while i < 4 {
+        if i < p {
+            let d = t.next_unpropagated();
+            assert!(d.is_some() && d.unwrap().variable == vars[i]);
+        }
+        i += 1;
+    }
+    let target: u32 = kani::any();
+    kani::assume(target == 0 || (target >= levels[0] && target <= 1001));
+    t.undo_until(target);
+    let mut kept = 0;
+    let mut i = 0;
+    while i < 4 {
+        if i < n && target != 0 && levels[i] <= target {
+            kept += 1;
+        }
+        i += 1;
+    }
+    assert!(t.stack.len() == kept, "exactly the decisions at or below the target level survive");
+    let mut i = 0;
+    while i < 4 {
+        if i < n {
+            if i < kept {
+                assert!(t.assigned_value(vars[i]) == Some(values[i]) && t.level(vars[i]) == levels[i]);
+            } else {
+                assert!(t.assigned_value(vars[i]).is_none() && t.level(vars[i]) == 0);
+            }
+        }
+        i += 1;
+    }
+    assert!(t.propagate_index <= t.stack.len());
+    if let Some(d) = t.next_unpropagated() {
+        let mut found = false;
+        let mut i = 0;
+        while i < 4 {
+            if i < kept && d.variable == vars[i] && d.value == values[i] {
+                found = true;
+            }
+            i += 1;
+        }
+        assert!(found, "next_unpropagated never returns an undone decision");
+    }
+    kani::cover!(n == 4 && kept == 2, "four decisions, two kept");
+    kani::cover!(n == 1 && kept == 0, "single decision fully reset");
+    kani::cover!(n == 3 && kept == 3, "nothing undone");
+    std::mem::forget(t);
+}
